@@ -2,6 +2,7 @@ import Driver.Util
 import Driver.Rt
 import StoneVerif.Model.IrCheck
 import StoneVerif.Model.Rt.WF
+import StoneVerif.Model.Rt.WFExtra
 /-! Protocol handlers `decl.ircheck.*` (C10: compile-time checks of defaults and examples).
 
 Literals:  ["n"] ["b",bool] ["i",int] ["f",bits] ["s",str] ["T",tag]
@@ -170,7 +171,7 @@ def handle (op : String) (j : Json) : Except String Json := do
                           (PTy.struct {} cls))
         | none => throw s!"no struct {cls}"
       | "union" => match api.union? cls with
-        | some u => pure ((fun E C => addUnionExample E C api.unions u ex), unionExampleDoc u ex, (PTy.union {} cls))
+        | some u => pure ((fun E C => (unionExample E C api.unions u ex).map fun _ => ()), unionExampleDoc u ex, (PTy.union {} cls))
         | none => throw s!"no union {cls}"
       | k => throw s!"kind {k}"
     pure (both2 ext cext fun E C =>
@@ -186,6 +187,7 @@ def handle (op : String) (j : Json) : Except String Json := do
         | _, _, _ => Json.null
       Json.mkObj [("check", crTo (fun _ => Json.null) r), ("doc", optTo jsonTo doc), ("run", run),
         ("envWF", match env? with | some env => Json.bool (envWF env) | none => Json.null),
+        ("envWFX", match env? with | some env => Json.bool (envWFX env) | none => Json.null),
         ("unionsAgree", match env? with | some env => Json.bool (unionsAgree api.unions env) | none => Json.null)])
   | _ => throw s!"unknown op {op}"
 
